@@ -162,7 +162,7 @@ impl Ctx {
             self.violations.push(json!({
                 "property": self.prop, "clause": clause, "line": line_no, "step": step,
                 "kind": kind, "per": per, "mult": m, "t": t,
-                "unit": {"a": unit.a, "b": unit.b, "av": unit.av, "big": unit.big},
+                "unit": {"a": unit.a, "b": unit.b, "av": unit.av, "big": unit.big, "nz": unit.nz},
                 "detail": detail
             }));
         }
@@ -284,10 +284,11 @@ impl<'a> Run<'a> {
         Run { pending_kind: None, rec: None, unit, line_no, insts: HashMap::new(), blobs: HashMap::new(), strict_map: HashMap::new(), eff_map: HashMap::new() }
     }
 
-    fn bar_of(&self, op: &Value) -> (Bar, [i64; 5]) {
+    fn bar_of(&self, op: &Value, t: u64) -> (Bar, [i64; 5]) {
         let g = |k: &str| op[k].as_i64().unwrap();
         let ks = [g("o"), g("h"), g("l"), g("c"), g("v")];
-        (Bar { o: self.unit.price(ks[0]), h: self.unit.price(ks[1]), l: self.unit.price(ks[2]), c: self.unit.price(ks[3]), v: self.unit.volume(ks[4]) }, ks)
+        let u = self.unit;
+        (Bar { o: u.price_at(ks[0], t), h: u.price_at(ks[1], t), l: u.price_at(ks[2], t), c: u.price_at(ks[3], t), v: u.volume(ks[4]) }, ks)
     }
 
     /// Execute one behaviour; `obs[k]` belongs to `ops[from + k]`.
@@ -549,11 +550,12 @@ impl<'a> Run<'a> {
         let mut inmag: f64 = 0.0;
         let mut heap_delta: i64 = 0;
         let inrec: InRec;
+        let fp0 = crate::fpenv::control();
         match name {
             "s" => {
                 let k = op["x"].as_i64().unwrap();
                 lits.push(k);
-                let x = unit.price(k);
+                let x = unit.price_at(k, l.t);
                 inmag = x.abs();
                 inrec = InRec::S(x);
                 let h0 = crate::alloc::live();
@@ -561,7 +563,7 @@ impl<'a> Run<'a> {
                 heap_delta = crate::alloc::live() - h0;
             }
             "b" => {
-                let (bar, ks) = self.bar_of(op);
+                let (bar, ks) = self.bar_of(op, l.t);
                 lits.extend_from_slice(&ks);
                 lits.push(-7);
                 inmag = bar.h.abs().max(bar.l.abs()).max(bar.c.abs());
@@ -597,6 +599,15 @@ impl<'a> Run<'a> {
             }
         }
         l.t += 1;
+        let fp1 = crate::fpenv::control();
+        if fp1 != fp0 {
+            // put it back (so that one report is made per offending call, not one per later comparison)
+            crate::fpenv::restore(fp0);
+            if prop == "C05" {
+                let lc = l.clone();
+                ctx.violate(self.line_no, &unit, idx, Some(&lc), "call-changed-thread-floating-point-environment", json!({"mxcsr_control_before": fp0, "after": fp1}));
+            }
+        }
         if inmag.is_finite() {
             l.mag = l.mag.max(inmag);
             match inrec {
@@ -632,6 +643,10 @@ impl<'a> Run<'a> {
             }
         };
         let got = observe(&l.cfg.kind, &raw);
+        // the output's other documented access route: `into()` a tuple, in the order the specification lists the fields
+        if crate::adapter::TUPLE_MISMATCH.with(|c| c.replace(false)) && matches!(prop.as_str(), "C02" | "C03" | "C15") {
+            ctx.violate(self.line_no, &unit, idx, Some(&l), "tuple-conversion-differs-from-fields", json!({"fields": raw}));
+        }
         // ---- C18: net heap growth inside next() (the returned Vec of outputs is the adapter's, not the indicator's)
         if prop == "C18" {
             l.heap += heap_delta - (raw.capacity() * 8) as i64;
@@ -675,7 +690,7 @@ impl<'a> Run<'a> {
                     let (a, b) = (got[k], w[k]);
                     let (err, tol) = match cls {
                         "exact" => (if num_eq(a, b) { 0.0 } else { f64::INFINITY }, 0.0),
-                        "tau" => ((a - b).abs(), tau(t) * l.mag * mfac * 1.001),
+                        "tau" => ((a - b).abs(), tau(t) * l.mag * (if f["k"] == "average" { 1.0 } else { mfac }) * 1.001),   // the middle band carries no multiplier
                         "tauvar" => ((a.signum() * a * a - b.signum() * b * b).abs(), tau(t) * l.mag * l.mag * (l.cfg.m * l.cfg.m).max(1.0) * 1.001),
                         // the documented combination has a branch of its own for a zero deviation ("0 when MAD is 0"): when the public
                         // MeanAbsoluteDeviation reports exactly 0 the hand-wired result is exactly 0, and so must the composite be
@@ -752,6 +767,27 @@ impl<'a> Run<'a> {
                 Err(_) => ctx.violate(self.line_no, &unit, idx, Some(&l), "ema-restart-panic", json!({})),
             }
         }
+        // ---- C03, long flat runs: an unchanged price scales both averages of RSI by the same factor, so the ratio does not move
+        //      (spec lemma RsiFlat; the bounded rationals cannot follow (1 - k)^t for long). Demanded while both averages are
+        //      certainly normal numbers: each is at least the decayed seed 0.1 * ((n-1)/(n+1))^t.
+        if prop == "C03" && l.cfg.kind == "RSI" && !l.tainted && l.last.len() == 1 && l.t >= 2 && l.cfg.per[0] >= 2 {
+            let cur = match inrec {
+                InRec::S(x) => x,
+                InRec::B(b) => b.c,
+            };
+            let n = l.cfg.per[0] as f64;
+            let t_normal = 280.0 * std::f64::consts::LN_10 / -((n - 1.0) / (n + 1.0)).ln();
+            if cur.to_bits() == l.last_in.to_bits() && (l.t as f64) <= t_normal && l.last[0].is_finite() {
+                ctx.stats.markov_checked += 1;
+                if !((raw[0] - l.last[0]).abs() <= tau(l.t) * 100.0 * 1.001) {
+                    ctx.violate(self.line_no, &unit, idx, Some(&l), "rsi-moves-on-unchanged-price", json!({"previous": l.last[0], "now": raw[0], "price": cur}));
+                }
+            }
+        }
+        l.last_in = match inrec {
+            InRec::S(x) => x,
+            InRec::B(b) => b.c,
+        };
         l.last = raw.clone();
         // ---- C13: the variance never becomes negative or NaN, at any step of a long stream
         if prop == "C13" && matches!(l.cfg.kind.as_str(), "SD" | "BB") && !l.tainted {
@@ -794,22 +830,17 @@ impl<'a> Run<'a> {
                 ctx.violate(self.line_no, &unit, idx, Some(&l), "harness-step-count-mismatch", json!({"spec_t": t}));
             }
         }
-        // ---- C18: serialized size constant after the first input and under the bound
-        if has(&prop, "size") && (l.t <= 300 || l.t % 997 == 0) {
+        // ---- C18: serialized size under the bound that the parameters alone determine. (The size is exactly constant after the
+        //      first input today, but the property does not promise that: a window kept in a VecDeque legitimately grows while
+        //      warming up. A leak is caught by running long enough past every trigger for it to cross the bound.)
+        if has(&prop, "size") && (l.t <= 600 || l.t % 97 == 0) {
             if let Ok(b) = l.ind.save() {
                 ctx.stats.size_checked += 1;
                 let bound = 256 + 64 * l.cfg.per.iter().sum::<usize>();
                 if b.len() > bound {
                     ctx.violate(self.line_no, &unit, idx, Some(&l), "serialized-size-over-bound", json!({"len": b.len(), "bound": bound}));
                 }
-                match l.len0 {
-                    None => l.len0 = Some(b.len()),
-                    Some(n0) => {
-                        if n0 != b.len() {
-                            ctx.violate(self.line_no, &unit, idx, Some(&l), "serialized-size-not-constant", json!({"first": n0, "now": b.len()}));
-                        }
-                    }
-                }
+                l.len0 = Some(l.len0.map_or(b.len(), |m| m.max(b.len())));
             }
         }
         // ---- determinism maps (licensed by the specification: the reference state is a function
@@ -937,7 +968,7 @@ impl<'a> Run<'a> {
                 let (err, tol, what) = match cls {
                     "exact" => (if num_eq(g, exp) { 0.0 } else { f64::INFINITY }, 0.0, "exact"),
                     "tau" => {
-                        let scale = if dim == "vol" { unit.av * (rat(&o["hi"]).0 as f64) } else { l.mag * mfac };
+                        let scale = if dim == "vol" { unit.av * (rat(&o["hi"]).0 as f64) } else { l.mag * (if f["k"] == "average" { 1.0 } else { mfac }) };
                         ((g - exp).abs(), tau(t) * scale * 1.001, "tau")
                     }
                     "tauvar" => {
@@ -1062,7 +1093,7 @@ impl<'a> Run<'a> {
                         (if num_eq(a, b) { 0.0 } else { f64::INFINITY }, 0.0)
                     } else {
                         match cls {
-                            "tau" => ((a - b).abs(), tau(t) * l.mag * mfac * 1.001),
+                            "tau" => ((a - b).abs(), tau(t) * l.mag * (if f["k"] == "average" { 1.0 } else { mfac }) * 1.001),   // the middle band carries no multiplier
                             "tauvar" => ((a.signum() * a * a - b.signum() * b * b).abs(), tau(t) * l.mag * l.mag * (l.cfg.m * l.cfg.m).max(1.0) * 1.001),
                             "cond" | "neutral" => {
                                 if !(c <= 1e6) {
